@@ -151,17 +151,26 @@ func (s *GSpec) GoSource(pkg string) string {
 			seen[key] = true
 			var params, args []string
 			for q, ty := range sig {
+				// parameters that are merely ASSIGNABLE from the term's type (named slice types)
+				if (ri+q+len(sig))%2 == 0 {
+					switch ty {
+					case "[]Node":
+						ty = "NodeList"
+					case "[]Token":
+						ty = "TokList"
+					}
+				}
 				params = append(params, fmt.Sprintf("a%d %s", q, ty))
 				args = append(args, fmt.Sprintf("rv(a%d)", q))
 			}
 			// rule index in the lr1 grammar: S' is 0, user rules follow in declaration order
-			fmt.Fprintf(&ms, "func (p *P) on_%s__s%d(%s) Node { return p.mk(%d, []string{%s}) }\n",
+			fmt.Fprintf(&ms, "func (p *parserT) on_%s__s%d(%s) Node { return p.mk(%d, []string{%s}) }\n",
 				r.Name, len(seen)-1, strings.Join(params, ", "), ri+1, strings.Join(args, ", "))
 		}
 	}
 	bounds := ""
 	if s.WithBounds {
-		bounds = "func (p *P) _onBounds(r any, b, e Token) { p.log = append(p.log, fmt.Sprintf(\"B %s %d %d\", rv(r), b.N-1, e.N-1)) }\n"
+		bounds = "func (p *parserT) _onBounds(r any, b, e Token) { p.log = append(p.log, fmt.Sprintf(\"B %s %d %d\", rv(r), b.N-1, e.N-1)) }\n"
 	}
 	var tt strings.Builder
 	tt.WriteString("var TokTypes = []int{EOF, ERROR")
@@ -196,7 +205,10 @@ type Node struct {
 
 func (n Node) Discard() bool { return n.K%2 == 1 }
 
-type P struct {
+type NodeList []Node
+type TokList []Token
+
+type parserT struct {
 	lox
 	log    []string
 	steps  int
@@ -230,6 +242,10 @@ func rv(v any) string {
 			return "_"
 		}
 		return fmt.Sprintf("E%d{%s}", x.Token.N-1, joinInts(x.Expected))
+	case NodeList:
+		return rv([]Node(x))
+	case TokList:
+		return rv([]Token(x))
 	case []Token:
 		ss := make([]string, len(x))
 		for i, e := range x {
@@ -252,7 +268,7 @@ func rv(v any) string {
 	return fmt.Sprintf("?%T", v)
 }
 
-func (p *P) mk(rule int, kids []string) Node {
+func (p *parserT) mk(rule int, kids []string) Node {
 	p.steps++
 	if p.steps > p.budget {
 		panic(budgetExceeded{})
@@ -293,7 +309,7 @@ func (l *scripted) ReadToken() (Token, int) {
 // Run parses a sequence of token TYPE NUMBERS and reports what could be observed.
 func Run(toks []int, budget int) (res string) {
 	lex := &scripted{toks: toks, budget: budget}
-	p := &P{budget: budget}
+	p := &parserT{budget: budget}
 	defer func() {
 		if e := recover(); e != nil {
 			if _, ok := e.(budgetExceeded); ok {
